@@ -10,6 +10,7 @@ from __future__ import annotations
 
 import itertools
 import random
+import signal
 
 from xv.harness import shash
 from xv import c20_regmachine as rm
@@ -51,6 +52,17 @@ INT_REGS = ["s1", "s2", "s3", "s4", "s5", "s6", "s7", "s8"]
 FLOAT_REGS = ["fs1", "fs2", "fs3", "fs4", "fs5", "fs6", "fs7", "fs8"]
 OUTSIDE = {"int": "a5", "float": "fa5"}
 FREE = {"int": ["s10", "s11"], "float": ["fs10", "fs11"]}
+
+PASS_CPU_BUDGET_S = 2.0
+
+
+class PassCpuBudgetExceeded(BaseException):
+    pass
+
+
+def _on_cpu_alarm(_sig, _frm):
+    raise PassCpuBudgetExceeded()
+
 
 K_XOR = "int-cycle-ge3-no-free-reg:xor-swaps-give-inverse-rotation"
 K_ROOT = "cycle-scratch-is-tree-root-source:non-destination-source-register-clobbered"
@@ -287,7 +299,19 @@ def run_case(moves, free, counters=None) -> CaseResult:
         return res
     bump("pass_applications")
     try:
-        X["Pass"]().apply(X["Context"](), mod)
+        signal.signal(signal.SIGVTALRM, _on_cpu_alarm)
+        signal.setitimer(signal.ITIMER_VIRTUAL, PASS_CPU_BUDGET_S)
+        try:
+            X["Pass"]().apply(X["Context"](), mod)
+        finally:
+            signal.setitimer(signal.ITIMER_VIRTUAL, 0)
+    except PassCpuBudgetExceeded:
+        # normal cost is ~1 ms; pure-python loops are interruptible, so the watchdog is in-process (CPU time, not wall)
+        res.status = "hang"
+        res.problems.append(("hang:pass-does-not-terminate",
+                             f"riscv-lower-parallel-mov still running after {PASS_CPU_BUDGET_S} s CPU (normal: ~1 ms)"))
+        bump("pass_exceeded_cpu_budget")
+        return res
     except X["Diag"] as e:
         msg = [l for l in str(e).splitlines() if "Error while applying pattern" in l]
         res.status = "failed"
